@@ -37,8 +37,9 @@ CLAIM = {
             "the arguments and no byte outside the foci changes (C04_shapeN_nfold, from the generic C04_puts_nfold); a map lens touches "
             "only its key; Iso.Forward then Inverse restores the source focus; Morphism round trip for ANY list of isos (nil entries "
             "skipped, entries repeated, source foci overlapping) when two entries are the same iso or have disjoint target foci "
-            "(C04_morphism_roundtrip), a hypothesis shown necessary by a witness. Model and oracle are run against the real code on "
-            "generated shapes.",
+            "(C04_morphism_roundtrip), a hypothesis shown necessary by a witness; under the same hypothesis the way back into another "
+            "source structure copies exactly the source foci (C04_morphism_transport). Model and oracle are run against the real code "
+            "on generated shapes.",
     "design_ref": "DESIGN.md 3/C04",
     "note": "Trusted: Coq kernel + vm_compute, tools/go2coq, conversions as byte functions. Map lenses are modelled on association "
             "lists and are not composable with the byte optics in the model. Nothing of DESIGN 3/C04 is left partial. Hypotheses that "
@@ -49,7 +50,10 @@ CLAIM = {
             "focus, Get reading its focus only - proved for field lenses, Join chains, Join over a window, BiMap) and the foci pairwise "
             "disjoint; (3) C04_morphism_roundtrip needs every entry to have a lawful source optic and a focused target optic, and two "
             "entries to be the same iso or to have disjoint TARGET foci - no hypothesis on source foci is needed; the target hypothesis "
-            "is necessary (C04_morphism_needs_disjoint_targets with C04_witness_entries_ok / C04_witness_targets_overlap).",
+            "is necessary (C04_morphism_needs_disjoint_targets with C04_witness_entries_ok / C04_witness_targets_overlap). "
+            "C04_morphism_transport (beyond DESIGN) additionally needs the source optics focused and 'transports' (putting the value "
+            "read from one arena into another copies the focus bytes - proved for field lenses, Join chains, BiMap, Join over a "
+            "window); that extra hypothesis is sufficient, it is not claimed necessary.",
     "technique": "Coq proof by induction on optic syntax / component lists / iso lists + translator-regenerated per-arity definitions + "
                  "differential run of model and oracle on generated Go struct shapes",
 }
